@@ -207,10 +207,18 @@ def numeric(ctx, chk, tier):
         outs, _ = explore_auc(ctx, chk, "fpr", "tpr", stub=False, sc=sc, ec=ec)
         rets = returns(outs)
         inst = "%s/%s" % (sc, ec)
-        if len(rets) != 1 or rets[0].unmodelled:
-            chk.unknown("R07.6", "auc() %s not reducible to one closed form" % inst)
+        if not rets or len(rets) > 8 or any(o.unmodelled for o in rets):
+            chk.unknown("R07.6", "auc() %s not reducible to closed forms (%d return paths)" % (inst, len(rets)))
             continue
-        term = rets[0].value
+
+        def term_for(env):
+            # several return paths (a fast path for the full range, special cases): the one whose path condition holds in this cell
+            if len(rets) == 1:
+                return rets[0].value
+            for o in rets:
+                if all(bool(evaluate(c, env)) == t for c, t in o.pc):
+                    return o.value
+            raise CannotEvaluate("no return path of auc() is enabled in the cell")
         bad = None
         n = 0
         try:
@@ -220,7 +228,7 @@ def numeric(ctx, chk, tier):
                     for lo, up in windows:
                         env = env_for(pos, neg, ep, en)
                         env[LO], env[UP] = lo, up
-                        got = evaluate(term, env)
+                        got = evaluate(term_for(env), env)
                         n += 1
                         if (lo, up) == (0, 1):
                             want = mann_whitney(pos, neg, ep, en, sc)
